@@ -180,9 +180,44 @@ def hasRaiseB : List Py.Stmt → Bool
 end
 
 mutual
-/-- some `finally` block contains a break/continue/return (documented exemption of C01) -/
+/-- a `return` anywhere inside (nested functions not entered) -/
+def hasRetS : Py.Stmt → Bool
+  | .ret _ _ => true
+  | .for_ _ _ _ b e _ _ => hasRetB b || hasRetB e
+  | .while_ _ _ b e => hasRetB b || hasRetB e
+  | .if_ _ _ b e => hasRetB b || hasRetB e
+  | .with_ _ _ b _ => hasRetB b
+  | .try_ _ b h e f => hasRetB b || hasRetB h || hasRetB e || hasRetB f
+  | .handler _ _ _ b => hasRetB b
+  | .other _ _ _ bs => hasRetB bs
+  | _ => false
+def hasRetB : List Py.Stmt → Bool
+  | [] => false
+  | s :: rest => hasRetS s || hasRetB rest
+end
+
+mutual
+/-- a jump leaves the statement: a `return` anywhere inside, or a `break`/`continue` that is not inside a loop
+of the statement itself (a jump in a loop's `else` belongs to the enclosing loop) -/
+def escS : Py.Stmt → Bool
+  | .break_ _ | .continue_ _ | .ret _ _ => true
+  | .for_ _ _ _ b e _ _ => hasRetB b || escB e
+  | .while_ _ _ b e => hasRetB b || escB e
+  | .if_ _ _ b e => escB b || escB e
+  | .with_ _ _ b _ => escB b
+  | .try_ _ b h e f => escB b || escB h || escB e || escB f
+  | .handler _ _ _ b => escB b
+  | .other _ _ _ bs => escB bs
+  | _ => false
+def escB : List Py.Stmt → Bool
+  | [] => false
+  | s :: rest => escS s || escB rest
+end
+
+mutual
+/-- a break/continue/return leaves some `finally` block (documented exemption of C01, PEP 765) -/
 def jumpInFinallyS : Py.Stmt → Bool
-  | .try_ _ b h e f => hasJumpB f || jumpInFinallyB b || jumpInFinallyB h || jumpInFinallyB e || jumpInFinallyB f
+  | .try_ _ b h e f => escB f || jumpInFinallyB b || jumpInFinallyB h || jumpInFinallyB e || jumpInFinallyB f
   | .functionDef _ _ _ b _ _ _ => jumpInFinallyB b
   | .classDef _ _ _ _ b _ => jumpInFinallyB b
   | .for_ _ _ _ b e _ _ => jumpInFinallyB b || jumpInFinallyB e
